@@ -11,12 +11,19 @@ use std::collections::HashMap;
 
 use crate::ast::*;
 
+/// Inlining rules into the list of strings to search for can multiply the list at every link
+/// of a chain of rules; a repetition that would need more strings than this is left as it is.
+const MAX_SKIP_STRINGS: usize = 1024;
+
 pub fn skip(rule: Rule, map: &HashMap<String, Expr>) -> Rule {
     fn populate_choices(
         expr: Expr,
         map: &HashMap<String, Expr>,
         mut choices: Vec<String>,
     ) -> Option<Expr> {
+        if choices.len() > MAX_SKIP_STRINGS {
+            return None;
+        }
         match expr {
             Expr::Choice(lhs, rhs) => {
                 if let Expr::Str(string) = *lhs {
@@ -39,6 +46,9 @@ pub fn skip(rule: Rule, map: &HashMap<String, Expr>) -> Rule {
             }
             Expr::Str(string) => {
                 choices.push(string);
+                if choices.len() > MAX_SKIP_STRINGS {
+                    return None;
+                }
                 Some(Expr::Skip(choices))
             }
             // Try inlining single rule
